@@ -40,7 +40,8 @@ func headerGetExact(h http.Header, key string) string {
 // 1. Takes an io.Reader instead of an io.ReaderSeeker
 // 2. Requires the size to be passed in explicitly instead of discovered via Seeker behavior
 // 3. Only handles a single HTTP Range, if multiple are requested it returns the first
-// 4. The passed io.Reader must start at wherever the HTTP Range Request will start
+// 4. The passed io.Reader must start at wherever the HTTP Range Request will start,
+//    unless it is also an io.Seeker, in which case it is positioned here
 // 4. Requires the Content-Type header to already be set
 // 5. Does not require the name to be passed in for content sniffing
 // 6. content may be nil for HEAD requests
@@ -85,6 +86,22 @@ func httpServeContent(w http.ResponseWriter, r *http.Request, modtime time.Time,
 		// itself, so this is probably an attack, or a
 		// dumb client. Ignore the range request.
 		ranges = nil
+	}
+
+	// The caller positioned content from the Range header alone, before the
+	// preconditions were evaluated and the ranges were matched against the
+	// size: a failed If-Range, a leading range that does not overlap, or a
+	// range set larger than the content change what is sent. Move seekable
+	// content to the first byte of what the headers below will announce.
+	if s, ok := content.(io.Seeker); ok && r.Method != http.MethodHead {
+		var sendStart int64
+		if len(ranges) > 0 {
+			sendStart = ranges[0].start
+		}
+		if _, err := s.Seek(sendStart, io.SeekStart); err != nil {
+			http.Error(w, "could not seek to start of response: "+err.Error(), http.StatusInternalServerError)
+			return
+		}
 	}
 
 	// We only support a single range request, if more than one is submitted we just send back the first
